@@ -81,6 +81,8 @@ def renderOut (a : Nat) : Out → Option String
   | .ev (.callRet k r) => some s!"call {k} {callResStr r}"
   | .ev (.waitRet w ready) => some s!"wait {w} {if ready then "Ready" else "Pending"}"
   | .ev .instant => some "inst Ok"
+  | .ev (.monFan _ tg e) =>
+    if tg.isEmpty then none else some ("; ".intercalate (tg.map fun m => s!"monemit {m} {supEvStr e}"))
   | .ev _ => none
   | .note s => some s
   | .eff _ => none
@@ -118,6 +120,14 @@ def renderLine (w : World) (names groups : List String) (own others : List WOut)
   -- actors killed by a `terminate()` during this op (hook note `treekill`), as a sorted extra field
   let tk := sortNats ((own ++ others).filterMap fun (a, o) => if o == .ev .treeKill then some a else none)
   let tail := if tk.isEmpty then "" else s!" | tk={showNats tk}"
+  -- monitors dropped because a send to them failed (model note `mondrop m` of the monitored actor)
+  let md := (own ++ others).filterMap fun (a, o) => match o with
+    | .note t => match t.splitOn " " with
+      | ["mondrop", m] => some s!"{a}:{m}"
+      | _ => none
+    | _ => none
+  let md := (md.toArray.qsort (· < ·)).toList
+  let tail := if md.isEmpty then tail else tail ++ s!" | md={",".intercalate md}"
   s!"{notes} | {renderWorld w names groups}{tail}"
 
 /-! ### parsing ops -/
@@ -177,6 +187,8 @@ def parseOp? (line : String) : Option Op :=
     | ["sup", p] => do let p ← p.toNat?; pure (.spawnInstant a (some p) name loc)
     | _ => none
   | ["link", a, p] => do pure (.link (← a.toNat?) (← p.toNat?))
+  | ["monitor", m, a] => do pure (.monitor (← m.toNat?) (← a.toNat?))
+  | ["unmonitor", m, a] => do pure (.unmonitor (← m.toNat?) (← a.toNat?))
   | ["unlink", a, p] => do pure (.unlink (← a.toNat?) (← p.toNat?))
   | ["wait", w, a] => do pure (.wait (← w.toNat?) (← a.toNat?))
   | ["pollwait", w] => w.toNat?.map .pollWait
@@ -250,7 +262,8 @@ def parseCallRes? (t : String) : Option CallRes :=
 def opActor (waits calls : List (Nat × Nat)) : Op → Nat
   | .case => 0
   | .spawn a _ _ _ | .pollSpawn a | .dropSpawn a | .poll a | .abort a | .resume a _ | .send a _
-  | .stop a _ | .kill a | .drain a | .wait _ a | .call _ a | .spawnInstant a _ _ _ | .link a _ | .unlink a _ => a
+  | .stop a _ | .kill a | .drain a | .wait _ a | .call _ a | .spawnInstant a _ _ _ | .link a _ | .unlink a _
+  | .monitor _ a | .unmonitor _ a => a
   | .pollWait w => ((waits.find? (·.1 = w)).map (·.2)).getD 0
   | .pollCall k => ((calls.find? (·.1 = k)).map (·.2)).getD 0
 
@@ -303,7 +316,7 @@ def noteEvents (tgt : Nat) (op : Op) (note : String) : Option (List (Nat × Ev))
     | .call _ _ => pure [(tgt, .callSent k (r != .sendErr)), (tgt, .callRet k r)]
     | _ => pure [(tgt, .callRet k r)]
   | ["wait", w, r] => do pure [(tgt, .waitRet (← w.toNat?) (r == "Ready"))]
-  | ["notask"] | ["nospawn"] | ["noopen"] | ["busy"] | ["respawn"] | ["nocell"] | ["nowait"] | ["nocall"]
+  | ["notask"] | ["nospawn"] | ["noopen"] | ["busy"] | ["respawn"] | ["nocell"] | ["nowait"] | ["nocall"] | ["nomon"]
   | ["bad-op"] => pure []
   | _ => none
 
@@ -368,6 +381,9 @@ structure St where
   prev : String := ""
   /-- actors a `terminate()` reached in this case (their child set is closed: a link to them is refused) -/
   treeKilled : List Nat := []
+  /-- feature `monitors`: who monitors whom, from the harness's own `monitor` / `unmonitor` ops (and the
+  `md=` field: monitors the implementation dropped after a failed send): monitored actor → monitors, ascending -/
+  monReg : List (Nat × List Nat) := []
 
 def feed {σ : Type} (next : σ → Ev → Except String σ) (m : Except String σ) (e : Ev) :
     Except String σ × Option String :=
@@ -391,6 +407,17 @@ def feedEv (which : Prop3) (mons : Array Mon) (a : Nat) (e : Ev) : Array Mon × 
   (mons.set! a { m with c01, c03, c04, res, c02 }, fails)
 
 def hasSub (s sub : String) : Bool := (s.splitOn sub).length > 1
+
+def regOf (reg : List (Nat × List Nat)) (a : Nat) : List Nat := ((reg.find? (·.1 == a)).map (·.2)).getD []
+
+def regSet (reg : List (Nat × List Nat)) (a : Nat) (l : List Nat) : List (Nat × List Nat) :=
+  (reg.filter (·.1 != a)) ++ [(a, l)]
+
+/-- `monemit to <event…>` → (to, event) -/
+def parseMonEmit? (note : String) : Option (Nat × SupEv) :=
+  match words note with
+  | "monemit" :: to :: rest => do pure (← to.toNat?, ← parseSupEv? rest)
+  | _ => none
 
 def addNew (l : List String) (x : String) : List String := if l.contains x then l else l ++ [x]
 
@@ -430,15 +457,38 @@ def step (which : Prop3) (st : St) (opLine impl : String) : St × StepOut :=
       | .abort a => if notes.contains "notask" then [] else [(a, .aborted)]
       | .dropSpawn a => if notes.contains "nospawn" then [] else [(a, .dropped)]
       | _ => []
-    let (evsR, bad) := notes.foldl (fun (acc : List (Nat × Ev) × Bool) n =>
-      match noteEvents tgt op n with
-      | some l => (acc.1 ++ l, acc.2)
-      | none => (acc.1, true)) (pre, false)
+    -- feature `monitors`: all copies of one event sent to monitors in this op are ONE `monFan` event of
+    -- the actor the event is about (registered set from the harness's ops, observed targets sorted, with
+    -- repetitions), placed where the first copy was sent
+    let monAll : List (Nat × SupEv) := notes.filterMap parseMonEmit?
+    let (evsR, bad, _) := notes.foldl (fun (acc : List (Nat × Ev) × Bool × List SupEv) n =>
+      if n.startsWith "monemit " then
+        match parseMonEmit? n with
+        | some (_, e) =>
+          if acc.2.2.contains e then acc
+          else
+            let tg := sortNats ((monAll.filter (·.2 == e)).map (·.1))
+            (acc.1 ++ [(e.who, Ev.monFan (regOf st.monReg e.who) tg e)], acc.2.1, acc.2.2 ++ [e])
+        | none => (acc.1, true, acc.2.2)
+      else
+        match noteEvents tgt op n with
+        | some l => (acc.1 ++ l, acc.2.1, acc.2.2)
+        | none => (acc.1, true, acc.2.2)) (pre, false, [])
+    -- a monitored actor whose task ended must have told its monitors: if no terminal copy was observed,
+    -- the missing fan-out is put in front of the `join` (judged `c04.monitor-set`)
+    let evsR : List (Nat × Ev) := evsR.foldl (fun acc (a, e) =>
+      match e with
+      | .join _ =>
+        let reg := regOf st.monReg a
+        let seen := evsR.any fun (b, x) => b == a && (match x with | .monFan _ _ f => f.isTerminal | _ => false)
+        if reg.isEmpty || seen then acc ++ [(a, e)]
+        else acc ++ [(a, Ev.monFan reg [] (.terminated a false .none)), (a, e)]
+      | _ => acc ++ [(a, e)]) []
     -- actors killed by a `terminate()` inside this op (5th field `tk=a,b`)
     let tkA : List Nat := match fields with
-      | _ :: _ :: _ :: _ :: f :: _ => match f.splitOn "=" with
-        | ["tk", v] => (natList? v).getD []
-        | _ => []
+      | _ :: _ :: _ :: _ :: rest => rest.foldl (fun acc f => match f.splitOn "=" with
+        | ["tk", v] => acc ++ (natList? v).getD []
+        | _ => acc) []
       | _ => []
     let evsR := evsR ++ tkA.map fun a => (a, Ev.treeKill)
     -- the end of a poll of a live loop task
@@ -509,6 +559,23 @@ def step (which : Prop3) (st : St) (opLine impl : String) : St × StepOut :=
         | _, _ => fails
       | _, _ => fails
     -- non-trivial: the op reached the property's interesting branch
+    -- bookkeeping of the monitor sets
+    let monReg := match op with
+      | .monitor m a =>
+        if notes.contains "nocell" || notes.contains "nomon" then st.monReg
+        else regSet st.monReg a (sortNats ((regOf st.monReg a).filter (· != m) ++ [m]))
+      | .unmonitor m a =>
+        if notes.contains "nocell" || notes.contains "nomon" then st.monReg
+        else regSet st.monReg a ((regOf st.monReg a).filter (· != m))
+      | _ => st.monReg
+    let mdPairs : List (Nat × Nat) := (fields.drop 4).foldl (fun acc f =>
+      match f.splitOn "=" with
+      | ["md", v] => acc ++ (v.splitOn ",").filterMap fun x =>
+          match x.splitOn ":" with
+          | [a, m] => do pure (← a.toNat?, ← m.toNat?)
+          | _ => none
+      | _ => acc) []
+    let monReg := mdPairs.foldl (fun r (a, m) => regSet r a ((regOf r a).filter (· != m))) monReg
     let tgtA : Option Actor := if op = .case then none else some (st.w.get tgt)
     let filled : Nat := match tgtA with
       | some a => (if a.sigVal then 1 else 0) + (if a.stopVal.isSome then 1 else 0)
@@ -525,13 +592,13 @@ def step (which : Prop3) (st : St) (opLine impl : String) : St × StepOut :=
       | .c03 => (isPoll && (filled ≥ 2 || (filled ≥ 1 && openCb)))
                 || ((match op with | .kill _ | .stop _ _ => true | _ => false) && hasSub impl "ret Ok" && (openCb || filled ≥ 1))
                 || hasSub impl "fx killself Ok" || hasSub impl "fx stopself"
-      | .c04 => hasSub impl "emit" || hasSub impl "ret Err(" || hasSub impl "join" || hasSub impl "cancelled"
+      | .c04 => hasSub impl "monemit" || hasSub impl "emit" || hasSub impl "ret Err(" || hasSub impl "join" || hasSub impl "cancelled"
       | .c02 => hasSub impl " handle " || ((match op with | .send _ _ | .call _ _ => true | _ => false) && (hasSub impl "ret Ok" || hasSub impl "Pending"))
                 || hasSub impl "fx sendself" || (isPoll && (match tgtA with | some a => !a.msgQ.isEmpty | none => false))
       | .residue => ((match op with | .spawn _ _ _ _ | .pollSpawn _ | .spawnInstant _ _ _ _ => true | _ => false) && hasSub impl "ret Err(")
                 || ((match op with | .dropSpawn _ => true | _ => false) && !hasSub impl "nospawn")
                 || failedSpawn
-    ({ w := w', mons, hist, names, groups, waits, calls, prev := impl, treeKilled := st.treeKilled ++ tkA },
+    ({ w := w', mons, hist, names, groups, waits, calls, prev := impl, treeKilled := st.treeKilled ++ tkA, monReg },
      { model, oracle := fails, nontrivial, key := some (toString hist) })
 
 def run (which : Prop3) (ops impl : Array String) : IO Tally :=
